@@ -59,7 +59,9 @@ TABLE = {
         "stream objects must be, per pid and channel, exactly (alive) or a "
         "prefix of (terminated) what was written, correctly labelled; a "
         "closed pipe must leave the loop idle; descriptor count must return "
-        "to baseline after up to 25 worker generations."),
+        "to baseline after up to 25 worker generations; circus' pre-exec "
+        "step, run in a forked child, must leave the capture pipes on the "
+        "child's descriptors 1 / 2."),
   note=SIM_NOTE + " Pipes, selector and os.read are real."),
  "C18": dict(
   engine="E1-simworld", category="exploration", design_ref="DESIGN.md §4 C18",
@@ -79,7 +81,8 @@ TABLE = {
         "reference syntaxes in any case, unknown references, literal "
         "dollars, list vs string args, shell on/off) are decoded by "
         "format_args and compared with the argv they were built from; in "
-        "generated lifecycle histories every Popen call's cwd and env are "
+        "generated lifecycle histories (shell watchers with shell_args "
+        "included) every Popen call's argument vector, cwd and env are "
         "compared with the configuration and worker ids are checked for "
         "positivity, first=1 and uniqueness among live workers."),
   note=SIM_NOTE + " What exec really receives is checked by the live tier (E3) when built."),
@@ -87,7 +90,10 @@ TABLE = {
   engine="E1-simworld", category="exploration", design_ref="DESIGN.md §4 C19",
   technique="property-based testing over generated watcher sets (priorities with ties, numprocesses, per-watcher and global warm-up, autostart) and start/restart sequences with injected deaths; invariant oracle over the simulated kernel's spawn log with virtual timestamps",
   text=("For the daemon start and for every generated multi-watcher "
-        "start/restart sequence the spawn log is checked for non-increasing "
+        "sequence (start, restart, daemon-wide reload with graceful off, "
+        "reloadconfig after several sections were added, socket events on "
+        "on-demand watchers; delays also changed by set requests) the spawn "
+        "log is checked for non-increasing "
         "priority, no interleaving between watchers, per-watcher and global "
         "warm-up gaps, and autostart=false watchers staying stopped."),
   note=SIM_NOTE),
